@@ -1,1 +1,335 @@
-// filled in later
+//! Component-list model of `std::path::{Path, PathBuf, Component}` (Unix semantics).
+//!
+//! A path is the list of components that `std::path::Path::components()` would yield for it:
+//!   * interior and trailing `.` are dropped, a leading `.` is kept only on relative paths;
+//!   * `..` is kept verbatim (never resolved);
+//!   * `push(p)`: an absolute `p` replaces the path, a relative one is appended;
+//!   * `pop()`: removes the last component; fails (returns false) on the empty path and on `/`.
+//! No byte-level parsing exists in the model: how a *string* splits into components (separators,
+//! `//`, trailing `/`, non-UTF-8) is outside every claim that uses it.
+//! `tests` below compare the model with the real std::path on every component list up to length 5
+//! over {name1, name2, ., ..} with and without a root, for components/push/pop.
+
+pub const CAP: usize = 10;
+
+#[derive(Clone, Copy, PartialEq, Eq, Debug, Hash)]
+pub struct Name(pub u8);
+
+/// Never constructed (Windows only).
+#[derive(Clone, Copy, PartialEq, Eq, Debug, Hash)]
+pub struct PrefixComponent(());
+
+#[derive(Clone, Copy, PartialEq, Eq, Debug, Hash)]
+pub enum Component {
+    Prefix(PrefixComponent),
+    RootDir,
+    CurDir,
+    ParentDir,
+    Normal(Name),
+}
+
+/// What `Component::as_os_str` returns in the model: the component itself, pushable.
+#[derive(Clone, Copy, PartialEq, Eq, Debug)]
+pub struct CompStr(pub Component);
+
+impl Component {
+    pub fn as_os_str(self) -> CompStr {
+        CompStr(self)
+    }
+}
+
+#[derive(Clone, Copy, Debug)]
+pub struct Path {
+    c: [Component; CAP],
+    n: usize,
+}
+pub type PathBuf = Path;
+
+impl PartialEq for Path {
+    fn eq(&self, o: &Path) -> bool {
+        if self.n != o.n {
+            return false;
+        }
+        let mut i = 0;
+        while i < self.n {
+            if self.c[i] != o.c[i] {
+                return false;
+            }
+            i += 1;
+        }
+        true
+    }
+}
+impl Eq for Path {}
+
+pub trait PushArg {
+    fn push_onto(&self, p: &mut Path);
+}
+impl PushArg for Component {
+    fn push_onto(&self, p: &mut Path) {
+        p.push_component(*self);
+    }
+}
+impl PushArg for CompStr {
+    fn push_onto(&self, p: &mut Path) {
+        p.push_component(self.0);
+    }
+}
+impl PushArg for &Path {
+    fn push_onto(&self, p: &mut Path) {
+        let mut i = 0;
+        while i < self.n {
+            p.push_component(self.c[i]);
+            i += 1;
+        }
+    }
+}
+impl PushArg for Path {
+    fn push_onto(&self, p: &mut Path) {
+        (&self).push_onto(p)
+    }
+}
+
+impl Default for Path {
+    fn default() -> Self {
+        Self::new()
+    }
+}
+
+impl Path {
+    pub const fn new() -> Path {
+        Path { c: [Component::CurDir; CAP], n: 0 }
+    }
+    pub fn from_components(cs: &[Component]) -> Path {
+        let mut p = Path::new();
+        let mut i = 0;
+        while i < cs.len() {
+            p.push_component(cs[i]);
+            i += 1;
+        }
+        p
+    }
+    pub fn len(&self) -> usize {
+        self.n
+    }
+    pub fn is_empty(&self) -> bool {
+        self.n == 0
+    }
+    pub fn get(&self, i: usize) -> Component {
+        assert!(i < self.n);
+        self.c[i]
+    }
+    pub fn to_path_buf(&self) -> PathBuf {
+        *self
+    }
+    pub fn as_path(&self) -> &Path {
+        self
+    }
+    pub fn is_absolute(&self) -> bool {
+        self.n > 0 && matches!(self.c[0], Component::RootDir)
+    }
+    pub fn has_root(&self) -> bool {
+        self.is_absolute()
+    }
+    fn push_component(&mut self, c: Component) {
+        match c {
+            Component::RootDir | Component::Prefix(_) => {
+                // pushing an absolute path replaces the current one
+                self.n = 0;
+                self.c[0] = c;
+                self.n = 1;
+            }
+            Component::CurDir => {
+                // `x/.` has the same components as `x`; only a leading `.` survives
+                if self.n == 0 {
+                    self.c[0] = c;
+                    self.n = 1;
+                }
+            }
+            _ => {
+                assert!(self.n < CAP, "pathmodel capacity (harness bound)");
+                self.c[self.n] = c;
+                self.n += 1;
+            }
+        }
+    }
+    pub fn push<P: PushArg>(&mut self, p: P) {
+        p.push_onto(self)
+    }
+    /// std: "Truncates self to self.parent(). Returns false and does nothing if self.parent() is None."
+    /// parent() is None for the empty path and for a path that ends in a root.
+    pub fn pop(&mut self) -> bool {
+        if self.n == 0 {
+            return false;
+        }
+        match self.c[self.n - 1] {
+            Component::RootDir | Component::Prefix(_) => false,
+            _ => {
+                self.n -= 1;
+                true
+            }
+        }
+    }
+    pub fn components(&self) -> Components<'_> {
+        Components { p: self, i: 0 }
+    }
+    pub fn join<P: PushArg>(&self, p: P) -> PathBuf {
+        let mut r = *self;
+        r.push(p);
+        r
+    }
+    pub fn parent(&self) -> Option<Path> {
+        let mut r = *self;
+        if r.pop() { Some(r) } else { None }
+    }
+}
+
+impl AsRef<Path> for Path {
+    fn as_ref(&self) -> &Path {
+        self
+    }
+}
+
+pub struct Components<'a> {
+    p: &'a Path,
+    i: usize,
+}
+impl<'a> Iterator for Components<'a> {
+    type Item = Component;
+    fn next(&mut self) -> Option<Component> {
+        if self.i < self.p.n {
+            let c = self.p.c[self.i];
+            self.i += 1;
+            Some(c)
+        } else {
+            None
+        }
+    }
+}
+
+#[cfg(test)]
+mod tests {
+    use super::*;
+    use std::path as sp;
+
+    fn name_str(n: u8) -> &'static str {
+        match n {
+            1 => "a",
+            2 => "bb",
+            _ => "c",
+        }
+    }
+    fn to_std_string(root: bool, cs: &[Component]) -> String {
+        let mut s = String::new();
+        if root {
+            s.push('/');
+        }
+        for (i, c) in cs.iter().enumerate() {
+            if i > 0 {
+                s.push('/');
+            }
+            match c {
+                Component::CurDir => s.push('.'),
+                Component::ParentDir => s.push_str(".."),
+                Component::Normal(n) => s.push_str(name_str(n.0)),
+                _ => unreachable!(),
+            }
+        }
+        s
+    }
+    fn std_comps(p: &sp::Path) -> Vec<Component> {
+        p.components()
+            .map(|c| match c {
+                sp::Component::RootDir => Component::RootDir,
+                sp::Component::CurDir => Component::CurDir,
+                sp::Component::ParentDir => Component::ParentDir,
+                sp::Component::Normal(s) => Component::Normal(Name(match s.to_str().unwrap() {
+                    "a" => 1,
+                    "bb" => 2,
+                    _ => 3,
+                })),
+                sp::Component::Prefix(_) => unreachable!(),
+            })
+            .collect()
+    }
+    fn model_of(root: bool, cs: &[Component]) -> Path {
+        let mut p = Path::new();
+        if root {
+            p.push(Component::RootDir);
+        }
+        for c in cs {
+            p.push(*c);
+        }
+        p
+    }
+    fn all_lists(maxlen: usize) -> Vec<Vec<Component>> {
+        let alpha = [Component::Normal(Name(1)), Component::Normal(Name(2)), Component::CurDir, Component::ParentDir];
+        let mut out: Vec<Vec<Component>> = vec![vec![]];
+        let mut frontier: Vec<Vec<Component>> = vec![vec![]];
+        for _ in 0..maxlen {
+            let mut next = vec![];
+            for l in &frontier {
+                for a in alpha {
+                    let mut m = l.clone();
+                    m.push(a);
+                    next.push(m);
+                }
+            }
+            out.extend(next.iter().cloned());
+            frontier = next;
+        }
+        out
+    }
+
+    #[test]
+    fn components_and_pop_agree_with_std() {
+        let mut n = 0;
+        for root in [false, true] {
+            for l in all_lists(5) {
+                let s = to_std_string(root, &l);
+                let sp_path = sp::PathBuf::from(&s);
+                let m = model_of(root, &l);
+                assert_eq!(std_comps(&sp_path), m.components().collect::<Vec<_>>(), "components of {s:?}");
+                let mut sp2 = sp_path.clone();
+                let mut m2 = m;
+                let r1 = sp2.pop();
+                let r2 = m2.pop();
+                assert_eq!(r1, r2, "pop result of {s:?}");
+                assert_eq!(std_comps(&sp2), m2.components().collect::<Vec<_>>(), "after pop of {s:?}");
+                n += 1;
+            }
+        }
+        assert!(n > 2000);
+    }
+
+    #[test]
+    fn push_agrees_with_std() {
+        let lists = all_lists(3);
+        for root_a in [false, true] {
+            for a in &lists {
+                for root_b in [false, true] {
+                    for b in &lists {
+                        let sa = to_std_string(root_a, a);
+                        let sb = to_std_string(root_b, b);
+                        let mut spa = sp::PathBuf::from(&sa);
+                        spa.push(sp::Path::new(&sb));
+                        let mut ma = model_of(root_a, a);
+                        let mb = model_of(root_b, b);
+                        ma.push(&mb);
+                        assert_eq!(std_comps(&spa), ma.components().collect::<Vec<_>>(), "{sa:?}.push({sb:?})");
+                        // component-wise push as done by normalize_path / relative_path
+                        let mut spc = sp::PathBuf::new();
+                        let mut mc = Path::new();
+                        for c in sp::Path::new(&sa).components() {
+                            spc.push(c.as_os_str());
+                        }
+                        for c in model_of(root_a, a).components() {
+                            mc.push(c.as_os_str());
+                        }
+                        assert_eq!(std_comps(&spc), mc.components().collect::<Vec<_>>(), "rebuild {sa:?}");
+                    }
+                }
+            }
+        }
+    }
+}
